@@ -110,6 +110,11 @@ def shapes(tier):
     add("nested-in-finally", lambda g: [g.block(inner_fin=[g.block(catches=1, fin=False)]), g.lit()])
     add("error-crosses-function", lambda g: [("fun", "f", [g.log(), g.exit(), g.block(catches=1), g.lit()]),
                                              g.block(call="f"), g.lit()])
+    # the error unwinds through calls whose arguments are short / long / nested values
+    add("error-crosses-function-with-args", lambda g: [
+        ("fun1", "f", [g.log(), g.exit(), g.lit()]),
+        ("fun1", "h", [g.log(), ("call1", "f", "big", g.next_tag()), g.exit(), g.lit()]),
+        g.block(inner_body=[("call1", "h", "big", g.next_tag())]), g.lit()])
     add("loop-in-block", lambda g: [g.block(inner_body=[("for", "i", "items", [g.log(), g.exit(), g.log()])]), g.lit()])
     if tier != "quick":
         add("depth3-body", lambda g: [g.block(inner_body=[g.block(inner_body=[g.block(catches=1)], catches=1)]), g.lit()])
@@ -164,6 +169,8 @@ def run(ctx, cell):
             "items": [vint(1), vint(2)]}
     env = {"sel": vint(sel), "sel2": vint(sel2), "kind": vint(kind), "kind2": vint(kind2), "ev": ev,
            "ev2": ev2, "rv": rv, "items": vlist([vint(1), vint(2)]), "log": vlist([])}
+    bigs = [vstr("x" * 60), vlist([vint(i) for i in range(30)]), vstr("short")]
+    env["big"] = bigs[ctx.choice("big", len(bigs))]
     for i in range(1, g.ncatch + 1):
         # catch values: same kind as the error value so that both matching and non-matching occur
         cv = mkev(ctx, "cv%d" % i, evk)
